@@ -7,6 +7,7 @@ Case kinds
   at_tomap / at_frommap / at_compose   AffineTransform              (Model/AffineTransform.lean)
   sp_syntax / cfg_syntax   attribute print -> lex -> parse          (Model/AttrSyntax.lean)
   ap            Access/Schedule/TemplatePattern construct (from a matrix or an AffineMap), canonicalize, inner_dims
+  ap_coll       Schedule / Template canonicalize + inner_dims on members with independent bounds
   affine_canon_map   canonicalize_map
   at_eq / at_evalnd / at_postinit   AffineTransform.__eq__, eval (1-D, batch, bad ndim), __post_init__
   opt_table     names of STREAMER_OPT_MAP
@@ -115,6 +116,23 @@ def gen_fold(rng: random.Random, ndims: int):
         ["+", ["+", x, ["c", a]], ["+", y, ["c", -a]]],
         ["+", ["*", ["+", y, ["c", a]], ["c", 0]], x],
     ])
+
+
+def gen_nested_divmod(rng: random.Random, ndims: int):
+    """(x op1 c1) op2 c2 with neighbouring constants (range reasoning about remainders / quotients is where an
+    off-by-one hides), alone or inside a larger expression"""
+    c2 = rng.choice([1, 2, 2, 3, 4, 5, 8])
+    c1 = max(1, c2 + rng.choice([-1, 0, 1, 1, 1, 2]))
+    x = gen_expr(rng, rng.choice([0, 0, 1]), ndims)
+    if x[0] == "c":
+        x = ["d", rng.randrange(ndims)]
+    core = [rng.choice(["//", "//", "%", "ceildiv"]), [rng.choice(["%", "%", "//", "ceildiv"]), x, ["c", c1]], ["c", c2]]
+    r = rng.random()
+    if r < 0.5:
+        return core
+    if r < 0.75:
+        return ["+", ["*", core, ["c", rng.choice([2, 4, -1])]], ["d", rng.randrange(ndims)]]
+    return ["+", gen_expr(rng, 1, ndims), core]
 
 
 GRID = [list(p) for p in itertools.product(range(-3, 6), repeat=2)]
@@ -562,6 +580,36 @@ def gen_at_postinit(rng):
     return {"kind": "at_postinit", "a_shape": a_shape, "b_shape": b_shape}
 
 
+def gen_ap_coll(rng):
+    """a Schedule / Template whose members have INDEPENDENT bounds: unit dimensions at different positions, different
+    extents, sometimes different ranks and numbers of results"""
+    cls = rng.choice(["schedule", "template"])
+    m = rng.choice([1, 2, 2, 2, 3, 3, 4])
+    n0 = rng.choice([1, 2, 2, 3, 3, 4])
+    pool = [1, 1, 1, 2, 2, 3, 4, 5, 8] if cls == "schedule" else [None, 1, 1, 1, 2, 3, 4, 8]
+    base = [rng.choice(pool) for _ in range(n0)]
+    pats = []
+    for i in range(m):
+        r = rng.random()
+        if i == 0 or r < 0.15:
+            bounds = list(base)                       # shared bounds (what dart-scheduler builds)
+        elif r < 0.5:
+            bounds = list(base)
+            rng.shuffle(bounds)                       # the unit dimensions sit elsewhere
+        elif r < 0.85:
+            bounds = [rng.choice(pool) for _ in range(n0)]
+        else:
+            bounds = [rng.choice(pool) for _ in range(rng.choice([0, 1, 2, 3, 4]))]   # another rank
+        if cls == "template" and rng.random() < 0.03 and bounds:
+            bounds[rng.randrange(len(bounds))] = 0
+        t = gen_T(rng, rows=rng.choice([1, 1, 2, 3]), cols=len(bounds))
+        t["A"] = [[v if v != 0 or rng.random() < 0.5 else rng.choice([1, 5, 7, 16]) for v in row] for row in t["A"]]
+        pats.append({"bounds": bounds, "t": t})
+    if rng.random() < 0.5:
+        rng.shuffle(pats)                             # the member with the "reference" bounds is not always first
+    return {"kind": "ap_coll", "cls": cls, "patterns": pats, "dim": rng.choice([0, 1, 1, 2, 2, 3, n0, n0 + 1])}
+
+
 def mk_ap(cls, bounds, t, amap=None):
     import snaxc.ir.dart.access_pattern as apm
     if amap is not None:
@@ -628,8 +676,10 @@ class C19(Prop):
             r = rng.random()
             if r < 0.7:
                 e = gen_expr(rng, rng.choice([1, 2, 3, 4, 4]), nd)
-            elif r < 0.85:
+            elif r < 0.8:
                 e = gen_wild(rng, rng.choice([1, 2, 3, 4]), nd)
+            elif r < 0.9:
+                e = gen_nested_divmod(rng, nd)
             else:
                 e = gen_fold(rng, nd)
             yield {"kind": "affine_canon", "e": e, "ndims": nd}
@@ -688,6 +738,8 @@ class C19(Prop):
             yield {"kind": "at_compose", "s": s, "o": o, "seed": rng.randrange(1 << 30)}
         for _ in range(500 if quick else 12000):
             yield gen_ap(rng)
+        for _ in range(400 if quick else 10000):
+            yield gen_ap_coll(rng)
         muts = ["del", "dup", "swap", "minus", "comma"]
         for _ in range(250 if quick else 6000):
             n1 = rng.choice([0, 1, 2, 3, 5])
@@ -794,6 +846,23 @@ class C19(Prop):
                 if "raised" not in inner:
                     coll_same = coll_same and [ap_json(q) for q in c.inner_dims(case["dim"])] == [inner, inner]
             return {"built": ap_json(p), "canon": canon, "inner": inner, "coll_same": coll_same}
+        if k == "ap_coll":
+            import snaxc.ir.dart.access_pattern as apm
+            pats = [mk_ap(case["cls"], q["bounds"], q["t"]) for q in case["patterns"]]
+            before = [ap_json(q) for q in pats]
+            coll = {"schedule": apm.Schedule, "template": apm.Template}[case["cls"]](pats)
+            res = coll.canonicalize()
+            canon = [ap_json(q) for q in res]
+            try:
+                inner = [ap_json(q) for q in coll.inner_dims(case["dim"])]
+            except ValueError:
+                inner = {"raised": "ValueError"}
+            again = [ap_json(q) for q in coll.canonicalize()]          # a second call on the same object
+            fresh = {"schedule": apm.Schedule, "template": apm.Template}[case["cls"]](list(reversed(pats)))
+            rev = [ap_json(q) for q in fresh.canonicalize()]            # member order must not matter
+            return {"coll_cls": type(res).__name__, "canon": canon, "inner": inner,
+                    "orig_unchanged": [ap_json(q) for q in coll] == before and [ap_json(q) for q in pats] == before,
+                    "repeatable": again == canon, "order_independent": list(reversed(rev)) == canon}
         if k == "opt_table":
             from snaxc.accelerators.streamers.extensions import STREAMER_OPT_MAP
             return {"names": sorted(STREAMER_OPT_MAP.keys()),
@@ -837,12 +906,28 @@ class C19(Prop):
             if case.get("map") is None:
                 args["t"] = case["t"]
             return [{"fn": "c19.ap", "args": args}]
+        if k == "ap_coll":
+            return [{"fn": "c19.ap", "args": {"cls": case["cls"], "bounds": q["bounds"], "dim": case["dim"], "map": None,
+                                              "t": q["t"], "fixed": "DC19a" in FIXED}} for q in case["patterns"]]
         if k == "opt_table":
             return [{"fn": "c19.opt_table", "args": {}}]
         return []
 
     def model(self, case, answers):
         k = case["kind"]
+        if k == "ap_coll":
+            for a_ in answers:
+                if "err" in a_:
+                    return {"model_error": a_["err"]}
+                if "raised" in a_["ok"]:
+                    return a_["ok"]
+            oks = [a_["ok"] for a_ in answers]
+            inner = [o_["inner"] for o_ in oks]
+            if any("raised" in i_ for i_ in inner):
+                inner = {"raised": "ValueError"}
+            return {"coll_cls": {"schedule": "Schedule", "template": "Template"}[case["cls"]],
+                    "canon": [o_["canon"] for o_ in oks], "inner": inner,
+                    "orig_unchanged": True, "repeatable": True, "order_independent": True}
         a = answers[0]
         if "err" in a:
             return {"model_error": a["err"]}
@@ -1126,62 +1211,103 @@ class C19(Prop):
                 bad("constructor changed bounds or pattern")
             if not impl_out["coll_same"]:
                 bad("Schedule/Template.canonicalize or inner_dims differs from the per-pattern result")
-            c = impl_out["canon"]
-            ct = c["t"]
-            if c["cls"] != case["cls"]:
-                bad(f"canonicalize changed the class to {c['cls']}")
-            # which dimensions survive: those that can take a non-zero index; a dimension whose box is empty
-            # (static bound <= 0) may be kept or not by a correct implementation
-            k1 = [i for i, b in enumerate(bounds) if b is None or b > 1]
-            k2 = [i for i, b in enumerate(bounds) if b is None or b != 1]
-            kept = next((kk for kk in (k1, k2) if c["bounds"] == [bounds[i] for i in kk] and ct["nd"] == len(kk)), None)
-            if kept is None:
-                bad(f"canonicalize: bounds {bounds} -> {c['bounds']}: the dimensions that can take a non-zero index are "
-                    f"{[bounds[i] for i in k1]}")
-            elif ct["b"] != t["b"] or len(ct["A"]) != len(t["A"]):
-                bad("canonicalize changed the offset vector / number of results")
-            else:
-                for x in box_points(bounds, 17):
-                    want = py_affine(t, x)
-                    got = py_affine(ct, [x[i] for i in kept])
-                    if want != got:
-                        bad(f"canonical pattern evaluates to {got} instead of {want} at index {x} (bounds {bounds} -> {c['bounds']})")
-                        break
-                empty0 = any(b is not None and b <= 0 for b in bounds)
-                empty1 = any(b is not None and b <= 0 for b in c["bounds"])
-                if empty0 and not empty1:
-                    bad(f"canonicalize turns the empty iteration space {bounds} into the non-empty {c['bounds']}", "DC19a")
-                elif empty1 and not empty0:
-                    bad("canonical pattern has an empty iteration space, the original has not")
-                c2 = ap_json(mk_ap(c["cls"], c["bounds"], ct).canonicalize())
-                if c2 != c:
-                    bad(f"canonicalize not idempotent: {c} -> {c2}")
-            inner = impl_out["inner"]
+            self._check_pattern(case["cls"], bounds, t, impl_out["canon"], impl_out["inner"], case["dim"], bad)
+        elif k == "ap_coll":
+            pats = case["patterns"]
+            if "raised" in impl_out:
+                bad(f"{case['cls']} collection: canonicalize / inner_dims raised {impl_out['raised']}: {impl_out.get('msg')}")
+                return out
+            if not impl_out["orig_unchanged"]:
+                bad("canonicalize / inner_dims modified the collection it was called on")
+            if not impl_out["repeatable"]:
+                bad("a second canonicalize() on the same collection gives a different result")
+            if not impl_out["order_independent"]:
+                bad("canonicalize of the reversed collection is not the reversed result: members influence each other")
+            if impl_out["coll_cls"] != {"schedule": "Schedule", "template": "Template"}[case["cls"]]:
+                bad(f"canonicalize changed the collection class to {impl_out['coll_cls']}")
+            inner_all = impl_out["inner"]
             if case["dim"] <= 0:
-                if "raised" not in inner:
-                    bad(f"inner_dims({case['dim']}) did not raise")
-            elif "raised" in inner:
-                bad(f"inner_dims({case['dim']}) raised {inner['raised']}")
-            else:
-                m = min(case["dim"], n)
-                it = inner["t"]
-                if inner["cls"] != case["cls"]:
-                    bad(f"inner_dims changed the class to {inner['cls']}")
-                if inner["bounds"] != bounds[n - m:] or it["nd"] != m:
-                    bad(f"inner_dims({case['dim']}) of bounds {bounds} has bounds {inner['bounds']} / {it['nd']} dims")
-                elif it["b"] != t["b"] or len(it["A"]) != len(t["A"]):
-                    bad("inner_dims changed the offset vector / number of results")
-                else:
-                    for y in box_points(inner["bounds"], 23):
-                        want = py_affine(t, [0] * (n - m) + y)
-                        got = py_affine(it, y)
-                        if want != got:
-                            bad(f"inner_dims({case['dim']}) evaluates to {got} instead of {want} at inner index {y}")
-                            break
+                if "raised" not in inner_all:
+                    bad(f"collection inner_dims({case['dim']}) did not raise")
+            elif "raised" in inner_all:
+                bad(f"collection inner_dims({case['dim']}) raised {inner_all['raised']}")
+            elif len(inner_all) != len(pats):
+                bad("collection inner_dims changed the number of patterns")
+            if len(impl_out["canon"]) != len(pats):
+                bad(f"collection canonicalize returns {len(impl_out['canon'])} patterns for {len(pats)}")
+                return out
+            # every member of the canonical collection must be a canonical form OF ITS OWN original (same index)
+            for i, (pt, c) in enumerate(zip(pats, impl_out["canon"])):
+                inner_i = inner_all if "raised" in inner_all or len(inner_all) != len(pats) else inner_all[i]
+                if case["dim"] > 0 and "raised" in inner_i:
+                    inner_i = {"raised": inner_i["raised"]}
+                self._check_pattern(case["cls"], pt["bounds"], pt["t"], c,
+                                    inner_i if isinstance(inner_i, dict) else {"raised": "?"}, case["dim"], bad,
+                                    who=f"collection member {i} of {len(pats)} (bounds of all members: {[q['bounds'] for q in pats]}): ")
         elif k == "opt_table":
             if not impl_out.get("classes_distinct") or not impl_out.get("name_is_key"):
                 bad("STREAMER_OPT_MAP is not a bijection between option names and classes")
         return out
+
+    def _check_pattern(self, cls, bounds, t, canon, inner_out, dim, bad0, who=""):
+        """the property for ONE pattern: `canon` / `inner_out` are what the real code returned for canonicalize /
+        inner_dims(dim) of the pattern (cls, bounds, t)"""
+        n = len(bounds)
+
+        def bad(what, finding=None):
+            bad0(who + what, finding)
+        c = canon
+        ct = c["t"]
+        if c["cls"] != cls:
+            bad(f"canonicalize changed the class to {c['cls']}")
+        # which dimensions survive: those that can take a non-zero index; a dimension whose box is empty
+        # (static bound <= 0) may be kept or not by a correct implementation
+        k1 = [i for i, b in enumerate(bounds) if b is None or b > 1]
+        k2 = [i for i, b in enumerate(bounds) if b is None or b != 1]
+        kept = next((kk for kk in (k1, k2) if c["bounds"] == [bounds[i] for i in kk] and ct["nd"] == len(kk)), None)
+        if kept is None:
+            bad(f"canonicalize: bounds {bounds} -> {c['bounds']}: the dimensions that can take a non-zero index are "
+                f"{[bounds[i] for i in k1]}")
+        elif ct["b"] != t["b"] or len(ct["A"]) != len(t["A"]):
+            bad("canonicalize changed the offset vector / number of results")
+        else:
+            for x in box_points(bounds, 17):
+                want = py_affine(t, x)
+                got = py_affine(ct, [x[i] for i in kept])
+                if want != got:
+                    bad(f"canonical pattern evaluates to {got} instead of {want} at index {x} (bounds {bounds} -> {c['bounds']})")
+                    break
+            empty0 = any(b is not None and b <= 0 for b in bounds)
+            empty1 = any(b is not None and b <= 0 for b in c["bounds"])
+            if empty0 and not empty1:
+                bad(f"canonicalize turns the empty iteration space {bounds} into the non-empty {c['bounds']}", "DC19a")
+            elif empty1 and not empty0:
+                bad("canonical pattern has an empty iteration space, the original has not")
+            c2 = ap_json(mk_ap(c["cls"], c["bounds"], ct).canonicalize())
+            if c2 != c:
+                bad(f"canonicalize not idempotent: {c} -> {c2}")
+        inner = inner_out
+        if dim <= 0:
+            if "raised" not in inner:
+                bad(f"inner_dims({dim}) did not raise")
+        elif "raised" in inner:
+            bad(f"inner_dims({dim}) raised {inner['raised']}")
+        else:
+            m = min(dim, n)
+            it = inner["t"]
+            if inner["cls"] != cls:
+                bad(f"inner_dims changed the class to {inner['cls']}")
+            if inner["bounds"] != bounds[n - m:] or it["nd"] != m:
+                bad(f"inner_dims({dim}) of bounds {bounds} has bounds {inner['bounds']} / {it['nd']} dims")
+            elif it["b"] != t["b"] or len(it["A"]) != len(t["A"]):
+                bad("inner_dims changed the offset vector / number of results")
+            else:
+                for y in box_points(inner["bounds"], 23):
+                    want = py_affine(t, [0] * (n - m) + y)
+                    got = py_affine(it, y)
+                    if want != got:
+                        bad(f"inner_dims({dim}) evaluates to {got} instead of {want} at inner index {y}")
+                        break
 
     def nontrivial(self, case, impl_out):
         k = case["kind"]
@@ -1209,6 +1335,9 @@ class C19(Prop):
             return "ok" in impl_out and bool(case["s"]["b"]) and case["o"]["nd"] > 0 and case["s"]["nd"] > 0
         if k == "ap":
             return bool(impl_out["built"]["t"]["b"]) and impl_out["canon"]["bounds"] != case["bounds"]
+        if k == "ap_coll":
+            return len({tuple(q["bounds"]) for q in case["patterns"]}) > 1 and \
+                any(c_["bounds"] != q["bounds"] for c_, q in zip(impl_out["canon"], case["patterns"]))
         if k == "sp_syntax":
             return case["mut"] is None and bool(case["ub"])
         if k == "cfg_syntax":
@@ -1272,6 +1401,20 @@ class C19(Prop):
                     yield dict(case, bounds=bs[:i] + [2] + bs[i + 1:])
             if any(v not in (0, 1) for r in t["A"] for v in r):
                 yield dict(case, t=dict(t, A=[[i + 1 for i, _ in enumerate(r)] for r in t["A"]]))
+        elif k == "ap_coll":
+            ps = case["patterns"]
+            if len(ps) > 2:
+                for i in range(len(ps)):
+                    yield dict(case, patterns=ps[:i] + ps[i + 1:])
+            for i, q in enumerate(ps):
+                if len(q["t"]["b"]) > 1:
+                    yield dict(case, patterns=ps[:i] + [dict(q, t={"nd": q["t"]["nd"], "A": q["t"]["A"][:1], "b": q["t"]["b"][:1]})] + ps[i + 1:])
+            for i, q in enumerate(ps):
+                for j_ in range(len(q["bounds"])):
+                    if len(q["bounds"]) > 1:
+                        t_ = q["t"]
+                        yield dict(case, patterns=ps[:i] + [{"bounds": q["bounds"][:j_] + q["bounds"][j_ + 1:],
+                                   "t": {"nd": t_["nd"] - 1, "A": [r_[:j_] + r_[j_ + 1:] for r_ in t_["A"]], "b": t_["b"]}}] + ps[i + 1:])
         elif k == "cfg_syntax":
             ss = case["cfg"]["streamers"]
             if len(ss) > 1:
